@@ -23,7 +23,9 @@ package absnfs
 //@ specdef srvOK(h *NFSProcedureHandler) bool = h != nil && h.server != nil && h.server.handler != nil && acInv(h.server.handler.attrCache) && h.server.handler.fileMap != nil && h.server.handler.fileMap.handles != nil && curPolicy(h.server.handler) != nil && curTuning(h.server.handler) != nil && dirCacheApart(h.server.handler) && acIds(h.server.handler.attrCache)
 
 //@ func NFSProcedureHandler.handleAccess
-//@ prop C12
+// (C08 relies on the read-only masking proved here: the whole chain of clauses is part of both checks, so that
+// neither discharges its clause from an unchecked stepping stone)
+//@ prop C12 C08
 //@ requires srvOK(h) && reply != nil && authCtx != nil
 //@ loop 1 invariant authCtx != nil && authCtx.AuthSys != nil && 0 <= rangeindex + 1 && rangeindex + 1 <= len(authCtx.AuthSys.AuxGIDs)
 //@ loop 1 invariant isGroupMember <==> exists(j, 0, rangeindex + 1, authCtx.AuthSys.AuxGIDs[j] == fileGid)
@@ -35,6 +37,6 @@ package absnfs
 // consequences named in the property, as separate obligations
 //@ callassert binary.Write : [subset-of-request] accessAllowed & access == accessAllowed && accessAllowed < 64
 // (C08 names this clause too: ACCESS never grants MODIFY, EXTEND or DELETE on a read-only export)
-//@ callassert binary.Write : [ro-never-modify] {C12, C08} curPolicy(h.server.handler).ReadOnly ==> accessAllowed & 28 == 0
+//@ callassert binary.Write : [ro-never-modify] curPolicy(h.server.handler).ReadOnly ==> accessAllowed & 28 == 0
 //@ callassert binary.Write : [lookup-delete-dirs-only] attrs.Mode & os.ModeDir == 0 ==> accessAllowed & 18 == 0
-//@ callassert binary.Write : [value-written] {C12, C08} unboxed(arg2, uint32) == accessAllowed
+//@ callassert binary.Write : [value-written] unboxed(arg2, uint32) == accessAllowed
